@@ -48,7 +48,14 @@ impl Distribution for Exponential {
     /// Uses the [inverse transform
     /// sampling](https://en.wikipedia.org/wiki/Inverse_transform_sampling) method.
     fn sample(&self) -> f64 {
-        -self.rng.sample().ln() / self.lambda
+        // a uniform draw of exactly 0 would give ln(0): draw again
+        let u = loop {
+            let u = self.rng.sample();
+            if u > 0. {
+                break u;
+            }
+        };
+        -u.ln() / self.lambda
     }
 }
 
